@@ -151,18 +151,18 @@ Qed.
 (* ---------------------------------------------------------------- the machine runs them *)
 Definition ctl_same (r r3:rt) : Prop :=
   r_ctxs r3 = r_ctxs r /\ r_active r3 = r_active r /\ r_exit_req r3 = r_exit_req r /\ r_state r3 = r_state r /\
-  r_err r3 = r_err r /\ r_msgs r3 = r_msgs r /\ r_max_runtime r3 = r_max_runtime r.
+  r_err r3 = r_err r /\ r_msgs r3 = r_msgs r /\ r_max_runtime r3 = r_max_runtime r /\ cfg_same r r3.
 
 Lemma run_one_g r c f rest i r3 c2 :
   Good r c -> c_frames c = f :: rest -> nth_error (f_code f) (f_pos f) = Some i ->
   exec_instr i r (set_frames c (set_pos f (S (f_pos f)) :: rest)) = Ok (r3, c2) -> c_suspended c2 = false ->
   ctl_same r r3 -> Steps r (upd_cur r3 c2) /\ Good (upd_cur r3 c2) c2.
 Proof.
-  intros G EF N EX SU2 (C1 & C2 & C3 & C4 & C5 & C6 & C7). pose proof G as (C & X & St & E & M & D & SU).
+  intros G EF N EX SU2 (C1 & C2 & C3 & C4 & C5 & C6 & C7 & CF). pose proof G as (C & X & St & E & M & D & SU).
   assert (G3 : Good r3 c).
   { unfold Good. unfold cur in *. rewrite C1, C2, C3, C4, C5, C6, C7. auto 10. }
   split; [|apply (good_upd r3 c _ G3 SU2)].
-  eapply StepsExec; [|apply StepsRefl]. rewrite <- (set_msgs_upd_cur r3 c2) by (rewrite C6; exact M).
+  eapply StepsExec; [|eapply cfg_trans; [exact CF|apply cfg_upd_cur]|apply StepsRefl]. rewrite <- (set_msgs_upd_cur r3 c2) by (rewrite C6; exact M).
   eapply step_instr; eauto. unfold upd_cur. destruct (r_active r3); cbn; rewrite C5; exact E.
 Qed.
 
@@ -245,7 +245,7 @@ Proof.
       { cbn [exec_instr]. rewrite P. rewrite NE, IL. destruct (cv v); try reflexivity. exfalso. apply NV. reflexivity. }
       destruct (run_one_g r1 c1 f1 rest (IAssign n) _ _ G1 eq_refl N1 EX) as [S2 G2].
       { destruct G as (_ & _ & _ & _ & _ & _ & SU). exact SU. }
-      { unfold ns_set, set_nss, rt_with, ctl_same. cbn. auto 10. }
+      { unfold ns_set, set_nss, rt_with, ctl_same, cfg_same. cbn. auto 15. }
       pose proof (steps_trans _ _ _ S1 S2) as S3.
       eexists _, _, _, rest. split; [exact S3|]. split.
       { split; [exact G2|]. split; [reflexivity|]. split.
